@@ -122,8 +122,9 @@ class unix_disabled(uh.ifc.DisabledHash, uh.MinimalHandler):
         if hash is not None:
             hash = to_native_str(hash, param="hash")
             if cls.identify(hash):
-                # extract original hash, so that we normalize marker
-                hash = cls.enable(hash)
+                # already disabled (or empty): keep the embedded original hash, if any,
+                # so that we normalize the marker. a bare marker embeds nothing.
+                hash = hash[1:]
             if hash:
                 out += hash
         return out
